@@ -306,6 +306,26 @@ class PStr(str):
     _IS_TENSORFLOW_PLUGIN = True
 
 
+class Mixin(object):
+    def m(self, a=0, b=2, *rest, k=3, **kw):
+        conv = _probe()
+        if a:
+            r = ('T', 'SELF', a, b, rest, k, sorted(kw.items()))
+        else:
+            r = ('F', 'SELF', a, b, rest, k, sorted(kw.items()))
+        self.log.append(('run', conv) + r)
+        return r
+
+
+class MixTC(Mixin, unittest.TestCase):
+    def runTest(self):
+        pass
+
+
+class MixPlain(Mixin):
+    pass
+
+
 def posonly(a, /, b=2, *, c=3):
     conv = _probe()
     if a:
@@ -579,6 +599,14 @@ def build(name, env, log):
         o = Z.TC()
         o.log = log
         return Built(o.m, default_facts(kind='method', ent=method_ent(M, M, testcase=True)), self_val='SELF', binds=True)
+    if base == 'mix_tc':          # a mixin method reached through a TestCase subclass: allow-listed because of its OWNER
+        o = Z.MixTC()
+        o.log = log
+        return Built(o.m, default_facts(kind='method', ent=method_ent(M, M, testcase=True)), self_val='SELF', binds=True)
+    if base == 'mix_plain':       # the same function bound to an ordinary instance
+        o = Z.MixPlain()
+        o.log = log
+        return Built(o.m, default_facts(kind='method', ent=method_ent(M, M)), self_val='SELF', binds=True)
     if base == 'nt_sub_method':
         o = Z.NTS(log, 2)
         return Built(o.m, default_facts(kind='method', ent=method_ent(M, M, definer_nt=True, definer_nt_base=True)),
@@ -762,6 +790,7 @@ BASES_STATIC = [
     'fn', 'gfn', 'raiser', 'lambda', 'fn_unloadedmod', 'genfn', 'forelse', 'nosource', 'execfn', 'decorated', 'lru', 'dnc',
     'tograph', 'convertwrapped', 'fn_selfattr', 'tfplugin',
     'partialmethod', 'posonly', 'staticmethod_obj',
+    'mix_tc', 'mix_plain',
     'bound', 'unbound', 'classm', 'classm_inst', 'staticm', 'bound_gen', 'bound_testcase', 'nt_sub_method', 'nt_inherited',
     'bound_allowcls:malt.c13fake', 'bound_sub_inherit:malt.c13fake', 'bound_sub_override:malt.c13fake',
     'callobj', 'callobj_allowcls:malt.c13fake', 'callobj_allowcall:malt.c13fake', 'callobj_gen', 'callobj_forelse',
